@@ -1,6 +1,10 @@
+import RodbusModel.Props.C05Cancel
 import RodbusModel.Props.C20
 #print axioms Rodbus.C20.decode_noninterference_server
 #print axioms Rodbus.C20.cutScript_insert_setDecode
 #print axioms Rodbus.C20.level_change_transparent_server
 #print axioms Rodbus.C20.cutScript_filter
 #print axioms Rodbus.C20.level_changes_transparent_server
+#print axioms Rodbus.Cancel.session_cancel_safe
+#print axioms Rodbus.Cancel.cancel_safe_mbap
+#print axioms Rodbus.Cancel.cancel_safe_rtu
